@@ -17,7 +17,7 @@ Proof. exact script_same_calls. Qed.
 Print Assumptions C18_same_calls.
 
 (* against the default replay view (leaves folded): same calls, depths and durations *)
-Theorem C18_matches_default_replay : forall forks sel tasks,
+Theorem C18_matches_default_replay : forall forks sel tasks, no_longjmp_tasks tasks = true ->
   flat_map cb_core (script_run forks [] sel tasks) =
   map core_of (events_of (fst (replay_raw (mkcfg true forks) sel tasks))).
 Proof. exact script_matches_default_replay. Qed.
